@@ -312,12 +312,76 @@ class Bus:
         return self.draw_alphabet[k]
 
 
+# A second sequence alive at the same time on ANOTHER bus (an application with two gateways): when PARTNER is set
+# (a callable returning (generator, bus, judge)), every run_sequence() call drives that partner too - entirely before the
+# main sequence starts (switch 0), entirely after its k-th command (switch k), or command by command ("alt").  The main
+# sequence is judged by the caller as always; what the partner's judge objects to is collected in PARTNER_PROBLEMS.
+PARTNER = None
+PARTNER_SWITCH = 1
+PARTNER_PROBLEMS = []
+
+
+class _Side:
+    def __init__(self, seq, bus, cap, fault=None):
+        self.seq, self.bus, self.cap, self.fault = seq, bus, cap, fault
+        self.n, self.resp, self.done = 0, None, None
+
+    def step(self):
+        """Advance until one command has been executed (or the sequence ended)."""
+        from dali.command import Command
+        while self.done is None:
+            try:
+                item = self.seq.send(self.resp)
+                self.resp = None
+                if isinstance(item, Command):
+                    if self.n >= self.cap:
+                        self.seq.close()
+                        self.done = ("cap", None, self.n)
+                        return
+                    fr = self.bus.execute(item)
+                    if self.fault is not None:
+                        fr = self.fault(self.n, item, fr)
+                    self.n += 1
+                    if item.response is not None:
+                        self.resp = item.response(fr)
+                    return
+            except StopIteration as e:
+                self.done = ("return", e.value, self.n)
+            except Exception as e:
+                self.done = ("raise", e, self.n)
+
+    def finish(self):
+        while self.done is None:
+            self.step()
+
+
+def _run_with_partner(seq, bus, max_commands, fault):
+    pseq, pbus, pjudge = PARTNER()
+    main, part = _Side(seq, bus, max_commands, fault), _Side(pseq, pbus, 6000)
+    sw = PARTNER_SWITCH
+    if sw == 0:
+        part.finish()
+    while main.done is None:
+        main.step()
+        if sw == "alt":
+            part.step()
+        elif main.n == sw and main.done is None:
+            part.finish()
+    part.finish()
+    bad = pjudge(part.done[0], part.done[1])
+    if bad:
+        PARTNER_PROBLEMS.append((sw, bad))
+    return main.done
+
+
 def run_sequence(seq, bus, max_commands, fault=None):
     """Drive a generator sequence the way a driver does: commands are executed on the bus and
     the command's own response class wraps the backward frame; sleep/progress objects are
     skipped.  `fault(index, cmd, frame)` may replace an answer.  Returns (kind, value, ncmds)
     with kind in {'return', 'raise', 'cap'}.
     """
+    if PARTNER is not None:
+        return _run_with_partner(seq, bus, max_commands, fault)
     from dali.command import Command
     n = 0
     resp = None
